@@ -1,0 +1,6 @@
+//go:build !verif
+// +build !verif
+
+package decoder
+
+func verifSlot(fast bool, index, typeptr uintptr) {}
